@@ -11,6 +11,7 @@ schedules.
 -/
 import CaddyModel.Gen.UsagePoolSync
 import CaddyModel.Gen.LogWriterCloses
+import CaddyModel.Gen.UsagePoolClients
 
 namespace CaddyModel.C04
 
@@ -101,5 +102,75 @@ theorem yield_points_delimit_model_regions :
     acquisition, whatever its outcome); a set-up error path that closes "its" writer breaks this. -/
 theorem pooled_writer_closed_only_by_destructor_matches_source :
     Gen.logWriterCloseSites = [("Destruct", "Close")] := by decide
+
+/-! ### every client of every usage pool: where it acquires, where it releases, behind which guard -/
+
+/-- call sites (file, function, pool, method) the audit of the pools' clients is based on -/
+def expectedPoolClientSites : List (String × String × String × String) := [
+  -- listenerPool, non-unix build (listen.go): shared listener / packet conn, release once (CAS on `closed`)
+  ("listen.go", "listenReusable", "listenerPool", "LoadOrNew"),
+  ("listen.go", "listenReusable", "listenerPool", "LoadOrNew"),
+  ("listen.go", "fakeCloseListener.Close", "listenerPool", "Delete"),
+  ("listen.go", "fakeClosePacketConn.Close", "listenerPool", "Delete"),
+  -- listenerPool, unix build (listen_unix.go): counts sockets (LoadOrStore of nil after a successful bind),
+  -- gives the count back when keeping the unix socket fails, and in the wrappers' Close
+  ("listen_unix.go", "listenReusable", "listenerPool", "LoadOrStore"),
+  ("listen_unix.go", "listenReusable", "listenerPool", "Delete"),
+  ("listen_unix.go", "listenReusable", "listenerPool", "Delete"),
+  ("listen_unix.go", "deleteListener.Close", "listenerPool", "Delete"),
+  ("listen_unix.go", "deletePacketConn.Close", "listenerPool", "Delete"),
+  -- listenerPool, QUIC
+  ("listeners.go", "NetworkAddress.ListenQUIC", "listenerPool", "LoadOrNew"),
+  ("listeners.go", "ListenerUsage", "listenerPool", "References"),
+  ("listeners.go", "fakeCloseQuicListener.Close", "listenerPool", "Delete"),
+  -- writers
+  ("logging.go", "Logging.closeLogs", "writers", "Delete"),
+  ("logging.go", "Logging.openWriter", "writers", "LoadOrNew"),
+  -- hosts
+  ("modules/caddyhttp/reverseproxy/admin.go", "adminUpstreams.handleUpstreams", "hosts", "Range"),
+  ("modules/caddyhttp/reverseproxy/hosts.go", "Upstream.fillHost", "hosts", "LoadOrStore"),
+  ("modules/caddyhttp/reverseproxy/reverseproxy.go", "Handler.Cleanup", "hosts", "Delete"),
+  ("modules/caddyhttp/reverseproxy/reverseproxy.go", "Handler.proxyLoopIteration", "hosts", "Delete"),
+  -- databasePool
+  ("modules/caddypki/acmeserver/acmeserver.go", "Handler.Cleanup", "databasePool", "Delete"),
+  ("modules/caddypki/acmeserver/acmeserver.go", "Handler.openDatabase", "databasePool", "LoadOrNew"),
+  -- secretsLogPool
+  ("modules/caddytls/connpolicy.go", "ConnectionPolicy.buildStandardTLSConfig", "secretsLogPool", "LoadOrNew"),
+  ("modules/caddytls/connpolicy.go", "ConnectionPolicy.buildStandardTLSConfig", "secretsLogPool", "Delete")]
+
+def siteOf (r : String × String × String × String × List String) : String × String × String × String :=
+  (r.1, r.2.1, r.2.2.1, r.2.2.2.1)
+
+/-- every row for (function, method) has the guard -/
+def guarded (fn method guard : String) : Bool :=
+  let rows := Gen.usagePoolClients.filter fun r => r.2.1 == fn && r.2.2.2.1 == method
+  !rows.isEmpty && rows.all fun r => r.2.2.2.2.contains guard
+
+/-- **regenerated tie, all pool clients.** The call sites of the five usage pools are exactly the audited
+    ones (a new acquire or release site anywhere in the tree breaks this and has to be audited), and the
+    releases that must not run unconditionally are guarded:
+    * `acmeserver.Handler.Cleanup` releases the database only if `Provision` opened it (fix a57059e);
+    * the reverse proxy's `Cleanup` skips upstreams it never provisioned;
+    * the unix `listenReusable` counts a socket only after the bind succeeded and gives the count back only on
+      the error path of keeping the unix socket;
+    * the listener wrappers that can be closed more than once release exactly once (CAS on `closed`);
+    * the TLS secrets log is released by a callback registered right where it was acquired (same `filename`);
+    * the dynamic-upstream release of the reverse proxy is deferred in the branch that provisioned them. -/
+theorem usage_pool_clients_match_source :
+    Gen.usagePoolClients.map siteOf = expectedPoolClientSites ∧
+    (Gen.usagePoolClients.any fun r => r.1 == "modules/caddypki/acmeserver/acmeserver.go" && r.2.2.2.1 == "Delete"
+        && r.2.2.2.2.contains "!ash.databaseOpened => return") = true ∧
+    (Gen.usagePoolClients.any fun r => r.1 == "modules/caddyhttp/reverseproxy/reverseproxy.go" && r.2.1 == "Handler.Cleanup"
+        && r.2.2.2.2.contains "upstream.Host==nil => continue") = true ∧
+    (Gen.usagePoolClients.any fun r => r.1 == "listen_unix.go" && r.2.2.2.1 == "LoadOrStore" && r.2.2.2.2 == ["if err==nil"]) = true ∧
+    ((Gen.usagePoolClients.filter fun r => r.1 == "listen_unix.go" && r.2.1 == "listenReusable" && r.2.2.2.1 == "Delete").all
+        fun r => r.2.2.2.2.getLast? == some "if err!=nil") = true ∧
+    guarded "fakeCloseListener.Close" "Delete" "if atomic.CompareAndSwapInt32(&fcl.closed,0,1)" = true ∧
+    guarded "fakeClosePacketConn.Close" "Delete" "if atomic.CompareAndSwapInt32(&fcpc.closed,0,1)" = true ∧
+    guarded "fakeCloseQuicListener.Close" "Delete" "if atomic.CompareAndSwapInt32(&fcql.closed,0,1)" = true ∧
+    guarded "ConnectionPolicy.buildStandardTLSConfig" "Delete" "func" = true ∧
+    guarded "ConnectionPolicy.buildStandardTLSConfig" "LoadOrNew" "if p.InsecureSecretsLog!=\"\"" = true ∧
+    guarded "ConnectionPolicy.buildStandardTLSConfig" "Delete" "if p.InsecureSecretsLog!=\"\"" = true ∧
+    guarded "Handler.proxyLoopIteration" "Delete" "defer" = true := by decide
 
 end CaddyModel.C04
